@@ -217,6 +217,7 @@ type TxScript struct {
 	DoubleClose bool       `json:"double_close,omitempty"` // Close twice
 	HoldReader  bool       `json:"hold_reader,omitempty"`  // keep a body reader across Close
 	stampOut    *int64     // receives the transaction's timestamp (C19)
+	beforeClose func()     // harness hook: runs after the last API call, before Close (C05)
 }
 
 // ---------------------------------------------------------------- generators
